@@ -539,3 +539,439 @@ package variants
 //@ lemma rtBoolDouble(b bool)
 //@   tags C07
 //@   ensures ((b ? f64(1) : f64(0)) != f64(0)) == b
+
+// ---------------------------------------------------------------------------------------------
+// Operators (C06). convVal is the payload a successful Convert(value, t) delivers (both managers agree
+// where both succeed); the operators are specified over it: "converts the second operand to the first
+// operand's type and returns exactly what the host arithmetic of that type gives".
+//
+//@ spec cvInteger(val any, t VariantType) any =
+//@     t == Long ? box(asint64(val.(int))) : t == Float ? box(f32(val.(int))) : t == Double ? box(f64(val.(int))) :
+//@     t == DateTime ? box(cI2DT(val.(int))) : t == TimeSpan ? box(cI2TS(val.(int))) : t == Boolean ? box(val.(int) != 0) : nil
+//@ spec cvLong(val any, t VariantType) any =
+//@     t == Integer ? box(asint(val.(int64))) : t == Float ? box(f32(val.(int64))) : t == Double ? box(f64(val.(int64))) :
+//@     t == DateTime ? box(cI2DT(val.(int64))) : t == TimeSpan ? box(cI2TS(val.(int64))) : t == Boolean ? box(val.(int64) != 0) : nil
+//@ spec cvFloat(val any, t VariantType) any =
+//@     t == Integer ? box(asint(toint(trunc(f64(val.(float32)))))) : t == Long ? box(asint64(toint(trunc(f64(val.(float32)))))) :
+//@     t == Double ? box(f64(val.(float32))) : t == Boolean ? box(val.(float32) != f32(0)) : nil
+//@ spec cvDouble(val any, t VariantType) any =
+//@     t == Integer ? box(asint(toint(trunc(val.(float64))))) : t == Long ? box(asint64(toint(trunc(val.(float64))))) :
+//@     t == Float ? box(f32(val.(float64))) : t == Boolean ? box(val.(float64) != f64(0)) : nil
+//@ spec cvString(val any, t VariantType) any =
+//@     t == Integer ? box(strToInt(val.(string))) : t == Long ? box(strToLong(val.(string))) : t == Float ? box(strToFloat(val.(string))) :
+//@     t == Double ? box(strToDouble(val.(string))) : t == DateTime ? box(strToTime(val.(string))) : t == TimeSpan ? box(strToDur(val.(string))) :
+//@     t == Boolean ? box(strToBool(val.(string))) : nil
+//@ spec cvBoolean(val any, t VariantType) any =
+//@     t == Integer ? box(asint(val.(bool) ? 1 : 0)) : t == Long ? box(asint64(val.(bool) ? 1 : 0)) :
+//@     t == Float ? box(val.(bool) ? f32(1) : f32(0)) : t == Double ? box(val.(bool) ? f64(1) : f64(0)) : nil
+//@ spec cvDateTime(val any, t VariantType) any =
+//@     t == Integer ? box(asint(cDT2L(val.(time.Time)))) : t == Long ? box(cDT2L(val.(time.Time))) : nil
+//@ spec cvTimeSpan(val any, t VariantType) any =
+//@     t == Integer ? box(asint(cTS2L(val.(time.Duration)))) : t == Long ? box(cTS2L(val.(time.Duration))) : nil
+//@ spec convVal(vt VariantType, val any, t VariantType) any =
+//@     (t == vt || t == Object) ? val : t == String ? box(toStr(val)) :
+//@     vt == Integer ? cvInteger(val, t) : vt == Long ? cvLong(val, t) : vt == Float ? cvFloat(val, t) : vt == Double ? cvDouble(val, t) :
+//@     vt == String ? cvString(val, t) : vt == Boolean ? cvBoolean(val, t) : vt == DateTime ? cvDateTime(val, t) :
+//@     vt == TimeSpan ? cvTimeSpan(val, t) : nil
+//
+// what every operator assumes about the conversion it delegates to (both managers must satisfy it)
+//@ interface IVariantOperationsOverrides.Convert(self, value, newType)
+//@   requires vinv(value) && Null <= newType && newType <= Array
+//@   ensures[C06,C07] (result != nil) != (err != nil)
+//@   ensures[C06,C07] err == nil && newType != Object ==> vinv(result) && result.typ == newType
+//@   ensures[C06,C07] err == nil && (newType == Object || newType == value.typ) && newType != Null ==> result == value
+//@   ensures[C06,C07] err == nil && result != value ==> fresh(result)
+//@   ensures[C06,C07] err == nil && newType != Null && value.typ != Null ==> result.value == convVal(value.typ, value.value, newType)
+//@   ensures[C06,C07] newType == Null || newType == Object || newType == value.typ || widening(value.typ, newType) ==> err == nil
+//@   assigns nothing
+//@   nopanic
+//
+// ==== GENERATED by /verif/tools/gen_variant_ops_contracts.py - BEGIN ====
+//@ func (c *AbstractVariantOperations) Add
+//@   requires c != nil && c.Overrides != nil && vinv(value1) && vinv(value2)
+//@   ensures[C06,C03] (result != nil) != (err != nil)
+//@   ensures[C06] err == nil ==> vinv(result)
+//@   assigns nothing
+//@   nopanic
+//@   ensures[C06] value1.typ == Null || value2.typ == Null ==> err == nil && result.typ == Null
+//@   ensures[C06] value1.typ == Integer && value2.typ != Null && err == nil ==> result.typ == Integer && fresh(result) && result.value.(int) == wrap64(value1.value.(int) + convVal(value2.typ, value2.value, Integer).(int))
+//@   ensures[C06] value1.typ == Integer && value2.typ == Integer ==> err == nil
+//@   ensures[C06] value1.typ == Long && value2.typ != Null && err == nil ==> result.typ == Long && fresh(result) && result.value.(int64) == wrap64(value1.value.(int64) + convVal(value2.typ, value2.value, Long).(int64))
+//@   ensures[C06] value1.typ == Long && value2.typ == Long ==> err == nil
+//@   ensures[C06] value1.typ == Float && value2.typ != Null && err == nil ==> result.typ == Float && fresh(result) && result.value == box(value1.value.(float32) + convVal(value2.typ, value2.value, Float).(float32))
+//@   ensures[C06] value1.typ == Float && value2.typ == Float ==> err == nil
+//@   ensures[C06] value1.typ == Double && value2.typ != Null && err == nil ==> result.typ == Double && fresh(result) && result.value == box(value1.value.(float64) + convVal(value2.typ, value2.value, Double).(float64))
+//@   ensures[C06] value1.typ == Double && value2.typ == Double ==> err == nil
+//@   ensures[C06] value1.typ == TimeSpan && value2.typ != Null && err == nil ==> result.typ == TimeSpan && fresh(result) && result.value.(time.Duration) == wrap64(value1.value.(time.Duration) + convVal(value2.typ, value2.value, TimeSpan).(time.Duration))
+//@   ensures[C06] value1.typ == TimeSpan && value2.typ == TimeSpan ==> err == nil
+//@   ensures[C06] value1.typ == String && value2.typ != Null && err == nil ==> result.typ == String && fresh(result) && result.value.(string) == value1.value.(string) + convVal(value2.typ, value2.value, String).(string)
+//@   ensures[C06] value1.typ == String && value2.typ == String ==> err == nil
+//@   ensures[C06] value2.typ != Null && value1.typ != Null && value1.typ != Integer && value1.typ != Long && value1.typ != Float && value1.typ != Double && value1.typ != TimeSpan && value1.typ != String ==> err != nil
+//
+//@ func (c *AbstractVariantOperations) Sub
+//@   requires c != nil && c.Overrides != nil && vinv(value1) && vinv(value2)
+//@   ensures[C06,C03] (result != nil) != (err != nil)
+//@   ensures[C06] err == nil ==> vinv(result)
+//@   assigns nothing
+//@   nopanic
+//@   ensures[C06] value1.typ == Null || value2.typ == Null ==> err == nil && result.typ == Null
+//@   ensures[C06] value1.typ == Integer && value2.typ != Null && err == nil ==> result.typ == Integer && fresh(result) && result.value.(int) == wrap64(value1.value.(int) - convVal(value2.typ, value2.value, Integer).(int))
+//@   ensures[C06] value1.typ == Integer && value2.typ == Integer ==> err == nil
+//@   ensures[C06] value1.typ == Long && value2.typ != Null && err == nil ==> result.typ == Long && fresh(result) && result.value.(int64) == wrap64(value1.value.(int64) - convVal(value2.typ, value2.value, Long).(int64))
+//@   ensures[C06] value1.typ == Long && value2.typ == Long ==> err == nil
+//@   ensures[C06] value1.typ == Float && value2.typ != Null && err == nil ==> result.typ == Float && fresh(result) && result.value == box(value1.value.(float32) - convVal(value2.typ, value2.value, Float).(float32))
+//@   ensures[C06] value1.typ == Float && value2.typ == Float ==> err == nil
+//@   ensures[C06] value1.typ == Double && value2.typ != Null && err == nil ==> result.typ == Double && fresh(result) && result.value == box(value1.value.(float64) - convVal(value2.typ, value2.value, Double).(float64))
+//@   ensures[C06] value1.typ == Double && value2.typ == Double ==> err == nil
+//@   ensures[C06] value1.typ == TimeSpan && value2.typ != Null && err == nil ==> result.typ == TimeSpan && fresh(result) && result.value.(time.Duration) == wrap64(value1.value.(time.Duration) - convVal(value2.typ, value2.value, TimeSpan).(time.Duration))
+//@   ensures[C06] value1.typ == TimeSpan && value2.typ == TimeSpan ==> err == nil
+//@   ensures[C06] value1.typ == DateTime && value2.typ != Null && err == nil ==> result.typ == TimeSpan && fresh(result) && result.value.(time.Duration) == ext("(time.Time).Sub", "time.Duration", value1.value.(time.Time), convVal(value2.typ, value2.value, DateTime).(time.Time))
+//@   ensures[C06] value2.typ != Null && value1.typ != Null && value1.typ != Integer && value1.typ != Long && value1.typ != Float && value1.typ != Double && value1.typ != TimeSpan && value1.typ != DateTime ==> err != nil
+//
+//@ func (c *AbstractVariantOperations) Mul
+//@   requires c != nil && c.Overrides != nil && vinv(value1) && vinv(value2)
+//@   ensures[C06,C03] (result != nil) != (err != nil)
+//@   ensures[C06] err == nil ==> vinv(result)
+//@   assigns nothing
+//@   nopanic
+//@   ensures[C06] value1.typ == Null || value2.typ == Null ==> err == nil && result.typ == Null
+//@   ensures[C06] value1.typ == Integer && value2.typ != Null && err == nil ==> result.typ == Integer && fresh(result) && result.value.(int) == wrap64(value1.value.(int) * convVal(value2.typ, value2.value, Integer).(int))
+//@   ensures[C06] value1.typ == Integer && value2.typ == Integer ==> err == nil
+//@   ensures[C06] value1.typ == Long && value2.typ != Null && err == nil ==> result.typ == Long && fresh(result) && result.value.(int64) == wrap64(value1.value.(int64) * convVal(value2.typ, value2.value, Long).(int64))
+//@   ensures[C06] value1.typ == Long && value2.typ == Long ==> err == nil
+//@   ensures[C06] value1.typ == Float && value2.typ != Null && err == nil ==> result.typ == Float && fresh(result) && result.value == box(value1.value.(float32) * convVal(value2.typ, value2.value, Float).(float32))
+//@   ensures[C06] value1.typ == Float && value2.typ == Float ==> err == nil
+//@   ensures[C06] value1.typ == Double && value2.typ != Null && err == nil ==> result.typ == Double && fresh(result) && result.value == box(value1.value.(float64) * convVal(value2.typ, value2.value, Double).(float64))
+//@   ensures[C06] value1.typ == Double && value2.typ == Double ==> err == nil
+//@   ensures[C06] value2.typ != Null && value1.typ != Null && value1.typ != Integer && value1.typ != Long && value1.typ != Float && value1.typ != Double ==> err != nil
+//
+//@ func (c *AbstractVariantOperations) Div
+//@   requires c != nil && c.Overrides != nil && vinv(value1) && vinv(value2)
+//@   ensures[C06,C03] (result != nil) != (err != nil)
+//@   ensures[C06] err == nil ==> vinv(result)
+//@   assigns nothing
+//@   nopanic
+//@   ensures[C06] value1.typ == Null || value2.typ == Null ==> err == nil && result.typ == Null
+//@   ensures[C06,C03] value1.typ == Integer && value2.typ != Null && convVal(value2.typ, value2.value, Integer).(int) == 0 ==> err != nil
+//@   ensures[C06] value1.typ == Integer && value2.typ != Null && err == nil ==> result.typ == Integer && fresh(result) && result.value.(int) == wrap64(value1.value.(int) / convVal(value2.typ, value2.value, Integer).(int))
+//@   ensures[C06] value1.typ == Integer && value2.typ == Integer && value2.value.(int) != 0 ==> err == nil
+//@   ensures[C06,C03] value1.typ == Long && value2.typ != Null && convVal(value2.typ, value2.value, Long).(int64) == 0 ==> err != nil
+//@   ensures[C06] value1.typ == Long && value2.typ != Null && err == nil ==> result.typ == Long && fresh(result) && result.value.(int64) == wrap64(value1.value.(int64) / convVal(value2.typ, value2.value, Long).(int64))
+//@   ensures[C06] value1.typ == Long && value2.typ == Long && value2.value.(int64) != 0 ==> err == nil
+//@   ensures[C06] value1.typ == Float && value2.typ != Null && err == nil ==> result.typ == Float && fresh(result) && result.value == box(value1.value.(float32) / convVal(value2.typ, value2.value, Float).(float32))
+//@   ensures[C06] value1.typ == Float && value2.typ == Float ==> err == nil
+//@   ensures[C06] value1.typ == Double && value2.typ != Null && err == nil ==> result.typ == Double && fresh(result) && result.value == box(value1.value.(float64) / convVal(value2.typ, value2.value, Double).(float64))
+//@   ensures[C06] value1.typ == Double && value2.typ == Double ==> err == nil
+//@   ensures[C06] value2.typ != Null && value1.typ != Null && value1.typ != Integer && value1.typ != Long && value1.typ != Float && value1.typ != Double ==> err != nil
+//
+//@ func (c *AbstractVariantOperations) Mod
+//@   requires c != nil && c.Overrides != nil && vinv(value1) && vinv(value2)
+//@   ensures[C06,C03] (result != nil) != (err != nil)
+//@   ensures[C06] err == nil ==> vinv(result)
+//@   assigns nothing
+//@   nopanic
+//@   ensures[C06] value1.typ == Null || value2.typ == Null ==> err == nil && result.typ == Null
+//@   ensures[C06,C03] value1.typ == Integer && value2.typ != Null && convVal(value2.typ, value2.value, Integer).(int) == 0 ==> err != nil
+//@   ensures[C06] value1.typ == Integer && value2.typ != Null && err == nil ==> result.typ == Integer && fresh(result) && result.value.(int) == value1.value.(int) % convVal(value2.typ, value2.value, Integer).(int)
+//@   ensures[C06] value1.typ == Integer && value2.typ == Integer && value2.value.(int) != 0 ==> err == nil
+//@   ensures[C06,C03] value1.typ == Long && value2.typ != Null && convVal(value2.typ, value2.value, Long).(int64) == 0 ==> err != nil
+//@   ensures[C06] value1.typ == Long && value2.typ != Null && err == nil ==> result.typ == Long && fresh(result) && result.value.(int64) == value1.value.(int64) % convVal(value2.typ, value2.value, Long).(int64)
+//@   ensures[C06] value1.typ == Long && value2.typ == Long && value2.value.(int64) != 0 ==> err == nil
+//@   ensures[C06] value2.typ != Null && value1.typ != Null && value1.typ != Integer && value1.typ != Long ==> err != nil
+//
+//@ func (c *AbstractVariantOperations) Pow
+//@   requires c != nil && c.Overrides != nil && vinv(value1) && vinv(value2)
+//@   ensures[C06,C03] (result != nil) != (err != nil)
+//@   ensures[C06] err == nil ==> vinv(result)
+//@   assigns nothing
+//@   nopanic
+//@   ensures[C06] value1.typ == Null || value2.typ == Null ==> err == nil && result.typ == Null
+//@   ensures[C06] value1.typ == Integer && value2.typ != Null && err == nil ==> result.typ == Double && fresh(result) && result.value == box(ext("math.Pow", "float64", convVal(Integer, value1.value, Double).(float64), convVal(value2.typ, value2.value, Double).(float64)))
+//@   ensures[C06] value1.typ == Long && value2.typ != Null && err == nil ==> result.typ == Double && fresh(result) && result.value == box(ext("math.Pow", "float64", convVal(Long, value1.value, Double).(float64), convVal(value2.typ, value2.value, Double).(float64)))
+//@   ensures[C06] value1.typ == Float && value2.typ != Null && err == nil ==> result.typ == Double && fresh(result) && result.value == box(ext("math.Pow", "float64", convVal(Float, value1.value, Double).(float64), convVal(value2.typ, value2.value, Double).(float64)))
+//@   ensures[C06] value1.typ == Double && value2.typ != Null && err == nil ==> result.typ == Double && fresh(result) && result.value == box(ext("math.Pow", "float64", convVal(Double, value1.value, Double).(float64), convVal(value2.typ, value2.value, Double).(float64)))
+//@   ensures[C06] value1.typ == Integer && value2.typ == Integer ==> err == nil
+//@   ensures[C06] value1.typ == Integer && value2.typ == Long ==> err == nil
+//@   ensures[C06] value1.typ == Integer && value2.typ == Float ==> err == nil
+//@   ensures[C06] value1.typ == Integer && value2.typ == Double ==> err == nil
+//@   ensures[C06] value1.typ == Long && value2.typ == Integer ==> err == nil
+//@   ensures[C06] value1.typ == Long && value2.typ == Long ==> err == nil
+//@   ensures[C06] value1.typ == Long && value2.typ == Float ==> err == nil
+//@   ensures[C06] value1.typ == Long && value2.typ == Double ==> err == nil
+//@   ensures[C06] value1.typ == Float && value2.typ == Integer ==> err == nil
+//@   ensures[C06] value1.typ == Float && value2.typ == Long ==> err == nil
+//@   ensures[C06] value1.typ == Float && value2.typ == Float ==> err == nil
+//@   ensures[C06] value1.typ == Float && value2.typ == Double ==> err == nil
+//@   ensures[C06] value1.typ == Double && value2.typ == Integer ==> err == nil
+//@   ensures[C06] value1.typ == Double && value2.typ == Long ==> err == nil
+//@   ensures[C06] value1.typ == Double && value2.typ == Float ==> err == nil
+//@   ensures[C06] value1.typ == Double && value2.typ == Double ==> err == nil
+//@   ensures[C06] value2.typ != Null && value1.typ != Null && value1.typ != Integer && value1.typ != Long && value1.typ != Float && value1.typ != Double ==> err != nil
+//
+//@ func (c *AbstractVariantOperations) And
+//@   requires c != nil && c.Overrides != nil && vinv(value1) && vinv(value2)
+//@   ensures[C06,C03] (result != nil) != (err != nil)
+//@   ensures[C06] err == nil ==> vinv(result)
+//@   assigns nothing
+//@   nopanic
+//@   ensures[C06] value1.typ == Null || value2.typ == Null ==> err == nil && result.typ == Null
+//@   ensures[C06] value1.typ == Integer && value2.typ != Null && err == nil ==> result.typ == Integer && fresh(result) && result.value.(int) == ext("go.and", "int", value1.value.(int), convVal(value2.typ, value2.value, Integer).(int))
+//@   ensures[C06] value1.typ == Long && value2.typ != Null && err == nil ==> result.typ == Long && fresh(result) && result.value.(int64) == ext("go.and", "int64", value1.value.(int64), convVal(value2.typ, value2.value, Long).(int64))
+//@   ensures[C06] value1.typ == Boolean && value2.typ != Null && err == nil ==> result.typ == Boolean && fresh(result) && result.value.(bool) == (value1.value.(bool) && convVal(value2.typ, value2.value, Boolean).(bool))
+//@   ensures[C06] value1.typ == Integer && value2.typ == Integer ==> err == nil
+//@   ensures[C06] value1.typ == Long && value2.typ == Long ==> err == nil
+//@   ensures[C06] value1.typ == Boolean && value2.typ == Boolean ==> err == nil
+//@   ensures[C06] value2.typ != Null && value1.typ != Null && value1.typ != Integer && value1.typ != Long && value1.typ != Boolean ==> err != nil
+//
+//@ func (c *AbstractVariantOperations) Or
+//@   requires c != nil && c.Overrides != nil && vinv(value1) && vinv(value2)
+//@   ensures[C06,C03] (result != nil) != (err != nil)
+//@   ensures[C06] err == nil ==> vinv(result)
+//@   assigns nothing
+//@   nopanic
+//@   ensures[C06] value1.typ == Null || value2.typ == Null ==> err == nil && result.typ == Null
+//@   ensures[C06] value1.typ == Integer && value2.typ != Null && err == nil ==> result.typ == Integer && fresh(result) && result.value.(int) == ext("go.or", "int", value1.value.(int), convVal(value2.typ, value2.value, Integer).(int))
+//@   ensures[C06] value1.typ == Long && value2.typ != Null && err == nil ==> result.typ == Long && fresh(result) && result.value.(int64) == ext("go.or", "int64", value1.value.(int64), convVal(value2.typ, value2.value, Long).(int64))
+//@   ensures[C06] value1.typ == Boolean && value2.typ != Null && err == nil ==> result.typ == Boolean && fresh(result) && result.value.(bool) == (value1.value.(bool) || convVal(value2.typ, value2.value, Boolean).(bool))
+//@   ensures[C06] value1.typ == Integer && value2.typ == Integer ==> err == nil
+//@   ensures[C06] value1.typ == Long && value2.typ == Long ==> err == nil
+//@   ensures[C06] value1.typ == Boolean && value2.typ == Boolean ==> err == nil
+//@   ensures[C06] value2.typ != Null && value1.typ != Null && value1.typ != Integer && value1.typ != Long && value1.typ != Boolean ==> err != nil
+//
+//@ func (c *AbstractVariantOperations) Xor
+//@   requires c != nil && c.Overrides != nil && vinv(value1) && vinv(value2)
+//@   ensures[C06,C03] (result != nil) != (err != nil)
+//@   ensures[C06] err == nil ==> vinv(result)
+//@   assigns nothing
+//@   nopanic
+//@   ensures[C06] value1.typ == Null || value2.typ == Null ==> err == nil && result.typ == Null
+//@   ensures[C06] value1.typ == Integer && value2.typ != Null && err == nil ==> result.typ == Integer && fresh(result) && result.value.(int) == ext("go.xor", "int", value1.value.(int), convVal(value2.typ, value2.value, Integer).(int))
+//@   ensures[C06] value1.typ == Long && value2.typ != Null && err == nil ==> result.typ == Long && fresh(result) && result.value.(int64) == ext("go.xor", "int64", value1.value.(int64), convVal(value2.typ, value2.value, Long).(int64))
+//@   ensures[C06] value1.typ == Boolean && value2.typ != Null && err == nil ==> result.typ == Boolean && fresh(result) && result.value.(bool) == ((value1.value.(bool) && !convVal(value2.typ, value2.value, Boolean).(bool)) || (!value1.value.(bool) && convVal(value2.typ, value2.value, Boolean).(bool)))
+//@   ensures[C06] value1.typ == Integer && value2.typ == Integer ==> err == nil
+//@   ensures[C06] value1.typ == Long && value2.typ == Long ==> err == nil
+//@   ensures[C06] value1.typ == Boolean && value2.typ == Boolean ==> err == nil
+//@   ensures[C06] value2.typ != Null && value1.typ != Null && value1.typ != Integer && value1.typ != Long && value1.typ != Boolean ==> err != nil
+//
+//@ func (c *AbstractVariantOperations) Lsh
+//@   requires c != nil && c.Overrides != nil && vinv(value1) && vinv(value2)
+//@   ensures[C06,C03] (result != nil) != (err != nil)
+//@   ensures[C06] err == nil ==> vinv(result)
+//@   assigns nothing
+//@   nopanic
+//@   ensures[C06] value1.typ == Null || value2.typ == Null ==> err == nil && result.typ == Null
+//@   ensures[C06,C03] value1.typ == Integer && value2.typ != Null && convVal(value2.typ, value2.value, Integer).(int) < 0 ==> err != nil
+//@   ensures[C06] value1.typ == Integer && value2.typ != Null && err == nil ==> result.typ == Integer && fresh(result) && result.value.(int) == ext("go.shl", "int", value1.value.(int), convVal(value2.typ, value2.value, Integer).(int))
+//@   ensures[C06] value1.typ == Integer && value2.typ == Integer && value2.value.(int) >= 0 ==> err == nil
+//@   ensures[C06,C03] value1.typ == Long && value2.typ != Null && convVal(value2.typ, value2.value, Integer).(int) < 0 ==> err != nil
+//@   ensures[C06] value1.typ == Long && value2.typ != Null && err == nil ==> result.typ == Long && fresh(result) && result.value.(int64) == ext("go.shl", "int64", value1.value.(int64), convVal(value2.typ, value2.value, Integer).(int))
+//@   ensures[C06] value1.typ == Long && value2.typ == Integer && value2.value.(int) >= 0 ==> err == nil
+//@   ensures[C06] value2.typ != Null && value1.typ != Null && value1.typ != Integer && value1.typ != Long ==> err != nil
+//
+//@ func (c *AbstractVariantOperations) Rsh
+//@   requires c != nil && c.Overrides != nil && vinv(value1) && vinv(value2)
+//@   ensures[C06,C03] (result != nil) != (err != nil)
+//@   ensures[C06] err == nil ==> vinv(result)
+//@   assigns nothing
+//@   nopanic
+//@   ensures[C06] value1.typ == Null || value2.typ == Null ==> err == nil && result.typ == Null
+//@   ensures[C06,C03] value1.typ == Integer && value2.typ != Null && convVal(value2.typ, value2.value, Integer).(int) < 0 ==> err != nil
+//@   ensures[C06] value1.typ == Integer && value2.typ != Null && err == nil ==> result.typ == Integer && fresh(result) && result.value.(int) == ext("go.shr", "int", value1.value.(int), convVal(value2.typ, value2.value, Integer).(int))
+//@   ensures[C06] value1.typ == Integer && value2.typ == Integer && value2.value.(int) >= 0 ==> err == nil
+//@   ensures[C06,C03] value1.typ == Long && value2.typ != Null && convVal(value2.typ, value2.value, Integer).(int) < 0 ==> err != nil
+//@   ensures[C06] value1.typ == Long && value2.typ != Null && err == nil ==> result.typ == Long && fresh(result) && result.value.(int64) == ext("go.shr", "int64", value1.value.(int64), convVal(value2.typ, value2.value, Integer).(int))
+//@   ensures[C06] value1.typ == Long && value2.typ == Integer && value2.value.(int) >= 0 ==> err == nil
+//@   ensures[C06] value2.typ != Null && value1.typ != Null && value1.typ != Integer && value1.typ != Long ==> err != nil
+//
+//@ func (c *AbstractVariantOperations) Not
+//@   requires c != nil && vinv(value)
+//@   ensures[C06,C03] (result != nil) != (err != nil)
+//@   ensures[C06] err == nil ==> vinv(result)
+//@   assigns nothing
+//@   nopanic
+//@   ensures[C06] value.typ == Null ==> err == nil && result.typ == Boolean && result.value.(bool) == true
+//@   ensures[C06] value.typ == Integer ==> err == nil && result.typ == Integer && fresh(result) && result.value.(int) == ext("go.not", "int", value.value.(int))
+//@   ensures[C06] value.typ == Long ==> err == nil && result.typ == Long && fresh(result) && result.value.(int64) == ext("go.not", "int64", value.value.(int64))
+//@   ensures[C06] value.typ == Boolean ==> err == nil && result.typ == Boolean && fresh(result) && result.value.(bool) == !value.value.(bool)
+//@   ensures[C06] value.typ != Null && value.typ != Integer && value.typ != Long && value.typ != Boolean ==> err != nil
+//
+//@ func (c *AbstractVariantOperations) Negative
+//@   requires c != nil && vinv(value)
+//@   ensures[C06,C03] (result != nil) != (err != nil)
+//@   ensures[C06] err == nil ==> vinv(result)
+//@   assigns nothing
+//@   nopanic
+//@   ensures[C06] value.typ == Null ==> err == nil && result.typ == Null
+//@   ensures[C06] value.typ == Integer ==> err == nil && result.typ == Integer && fresh(result) && result.value.(int) == wrap64(0 - value.value.(int))
+//@   ensures[C06] value.typ == Long ==> err == nil && result.typ == Long && fresh(result) && result.value.(int64) == wrap64(0 - value.value.(int64))
+//@   ensures[C06] value.typ == Float ==> err == nil && result.typ == Float && fresh(result) && result.value == box(-value.value.(float32))
+//@   ensures[C06] value.typ == Double ==> err == nil && result.typ == Double && fresh(result) && result.value == box(-value.value.(float64))
+//@   ensures[C06] value.typ != Null && value.typ != Integer && value.typ != Long && value.typ != Float && value.typ != Double ==> err != nil
+//
+//@ func (c *AbstractVariantOperations) Equal
+//@   requires c != nil && c.Overrides != nil && vinv(value1) && vinv(value2)
+//@   requires value1.typ == Object ==> !isslice(value1.value)   -- an Object payload of an uncomparable Go type is outside the contract
+//@   ensures[C06,C03] (result != nil) != (err != nil)
+//@   ensures[C06] err == nil ==> vinv(result)
+//@   assigns nothing
+//@   nopanic
+//@   ensures[C06] value1.typ == Null && value2.typ == Null ==> err == nil && result.typ == Boolean && result.value.(bool) == true
+//@   ensures[C06] (value1.typ == Null) != (value2.typ == Null) ==> err == nil && result.typ == Boolean && result.value.(bool) == false
+//@   ensures[C06] value1.typ == Integer && value2.typ != Null && err == nil ==> result.typ == Boolean && fresh(result) && result.value.(bool) == (value1.value.(int) == convVal(value2.typ, value2.value, Integer).(int))
+//@   ensures[C06] value1.typ == Integer && value2.typ == Integer ==> err == nil
+//@   ensures[C06] value1.typ == Long && value2.typ != Null && err == nil ==> result.typ == Boolean && fresh(result) && result.value.(bool) == (value1.value.(int64) == convVal(value2.typ, value2.value, Long).(int64))
+//@   ensures[C06] value1.typ == Long && value2.typ == Long ==> err == nil
+//@   ensures[C06] value1.typ == Float && value2.typ != Null && err == nil ==> result.typ == Boolean && fresh(result) && result.value.(bool) == (value1.value.(float32) == convVal(value2.typ, value2.value, Float).(float32))
+//@   ensures[C06] value1.typ == Float && value2.typ == Float ==> err == nil
+//@   ensures[C06] value1.typ == Double && value2.typ != Null && err == nil ==> result.typ == Boolean && fresh(result) && result.value.(bool) == (value1.value.(float64) == convVal(value2.typ, value2.value, Double).(float64))
+//@   ensures[C06] value1.typ == Double && value2.typ == Double ==> err == nil
+//@   ensures[C06] value1.typ == String && value2.typ != Null && err == nil ==> result.typ == Boolean && fresh(result) && result.value.(bool) == (value1.value.(string) == convVal(value2.typ, value2.value, String).(string))
+//@   ensures[C06] value1.typ == String && value2.typ == String ==> err == nil
+//@   ensures[C06] value1.typ == TimeSpan && value2.typ != Null && err == nil ==> result.typ == Boolean && fresh(result) && result.value.(bool) == (value1.value.(time.Duration) == convVal(value2.typ, value2.value, TimeSpan).(time.Duration))
+//@   ensures[C06] value1.typ == TimeSpan && value2.typ == TimeSpan ==> err == nil
+//@   ensures[C06] value1.typ == Boolean && value2.typ != Null && err == nil ==> result.typ == Boolean && fresh(result) && result.value.(bool) == (value1.value.(bool) == convVal(value2.typ, value2.value, Boolean).(bool))
+//@   ensures[C06] value1.typ == DateTime && value2.typ != Null && err == nil ==> result.typ == Boolean && fresh(result) && result.value.(bool) == ext("(time.Time).Equal", "bool", value1.value.(time.Time), convVal(value2.typ, value2.value, DateTime).(time.Time))
+//@   ensures[C06] value2.typ != Null && value1.typ != Null && value1.typ != Integer && value1.typ != Long && value1.typ != Float && value1.typ != Double && value1.typ != String && value1.typ != TimeSpan && value1.typ != Boolean && value1.typ != DateTime && value1.typ != Object ==> err != nil
+//
+//@ func (c *AbstractVariantOperations) NotEqual
+//@   requires c != nil && c.Overrides != nil && vinv(value1) && vinv(value2)
+//@   requires value1.typ == Object ==> !isslice(value1.value)   -- an Object payload of an uncomparable Go type is outside the contract
+//@   ensures[C06,C03] (result != nil) != (err != nil)
+//@   ensures[C06] err == nil ==> vinv(result)
+//@   assigns nothing
+//@   nopanic
+//@   ensures[C06] value1.typ == Null && value2.typ == Null ==> err == nil && result.typ == Boolean && result.value.(bool) == false
+//@   ensures[C06] (value1.typ == Null) != (value2.typ == Null) ==> err == nil && result.typ == Boolean && result.value.(bool) == true
+//@   ensures[C06] value1.typ == Integer && value2.typ != Null && err == nil ==> result.typ == Boolean && fresh(result) && result.value.(bool) == (value1.value.(int) != convVal(value2.typ, value2.value, Integer).(int))
+//@   ensures[C06] value1.typ == Integer && value2.typ == Integer ==> err == nil
+//@   ensures[C06] value1.typ == Long && value2.typ != Null && err == nil ==> result.typ == Boolean && fresh(result) && result.value.(bool) == (value1.value.(int64) != convVal(value2.typ, value2.value, Long).(int64))
+//@   ensures[C06] value1.typ == Long && value2.typ == Long ==> err == nil
+//@   ensures[C06] value1.typ == Float && value2.typ != Null && err == nil ==> result.typ == Boolean && fresh(result) && result.value.(bool) == (value1.value.(float32) != convVal(value2.typ, value2.value, Float).(float32))
+//@   ensures[C06] value1.typ == Float && value2.typ == Float ==> err == nil
+//@   ensures[C06] value1.typ == Double && value2.typ != Null && err == nil ==> result.typ == Boolean && fresh(result) && result.value.(bool) == (value1.value.(float64) != convVal(value2.typ, value2.value, Double).(float64))
+//@   ensures[C06] value1.typ == Double && value2.typ == Double ==> err == nil
+//@   ensures[C06] value1.typ == String && value2.typ != Null && err == nil ==> result.typ == Boolean && fresh(result) && result.value.(bool) == (value1.value.(string) != convVal(value2.typ, value2.value, String).(string))
+//@   ensures[C06] value1.typ == String && value2.typ == String ==> err == nil
+//@   ensures[C06] value1.typ == TimeSpan && value2.typ != Null && err == nil ==> result.typ == Boolean && fresh(result) && result.value.(bool) == (value1.value.(time.Duration) != convVal(value2.typ, value2.value, TimeSpan).(time.Duration))
+//@   ensures[C06] value1.typ == TimeSpan && value2.typ == TimeSpan ==> err == nil
+//@   ensures[C06] value1.typ == Boolean && value2.typ != Null && err == nil ==> result.typ == Boolean && fresh(result) && result.value.(bool) == (value1.value.(bool) != convVal(value2.typ, value2.value, Boolean).(bool))
+//@   ensures[C06] value1.typ == DateTime && value2.typ != Null && err == nil ==> result.typ == Boolean && fresh(result) && result.value.(bool) == !ext("(time.Time).Equal", "bool", value1.value.(time.Time), convVal(value2.typ, value2.value, DateTime).(time.Time))
+//@   ensures[C06] value2.typ != Null && value1.typ != Null && value1.typ != Integer && value1.typ != Long && value1.typ != Float && value1.typ != Double && value1.typ != String && value1.typ != TimeSpan && value1.typ != Boolean && value1.typ != DateTime && value1.typ != Object ==> err != nil
+//
+//@ func (c *AbstractVariantOperations) More
+//@   requires c != nil && c.Overrides != nil && vinv(value1) && vinv(value2)
+//@   ensures[C06,C03] (result != nil) != (err != nil)
+//@   ensures[C06] err == nil ==> vinv(result)
+//@   assigns nothing
+//@   nopanic
+//@   ensures[C06] value1.typ == Null || value2.typ == Null ==> err == nil && result.typ == Null
+//@   ensures[C06] value1.typ == Integer && value2.typ != Null && err == nil ==> result.typ == Boolean && fresh(result) && result.value.(bool) == (value1.value.(int) > convVal(value2.typ, value2.value, Integer).(int))
+//@   ensures[C06] value1.typ == Integer && value2.typ == Integer ==> err == nil
+//@   ensures[C06] value1.typ == Long && value2.typ != Null && err == nil ==> result.typ == Boolean && fresh(result) && result.value.(bool) == (value1.value.(int64) > convVal(value2.typ, value2.value, Long).(int64))
+//@   ensures[C06] value1.typ == Long && value2.typ == Long ==> err == nil
+//@   ensures[C06] value1.typ == Float && value2.typ != Null && err == nil ==> result.typ == Boolean && fresh(result) && result.value.(bool) == (value1.value.(float32) > convVal(value2.typ, value2.value, Float).(float32))
+//@   ensures[C06] value1.typ == Float && value2.typ == Float ==> err == nil
+//@   ensures[C06] value1.typ == Double && value2.typ != Null && err == nil ==> result.typ == Boolean && fresh(result) && result.value.(bool) == (value1.value.(float64) > convVal(value2.typ, value2.value, Double).(float64))
+//@   ensures[C06] value1.typ == Double && value2.typ == Double ==> err == nil
+//@   ensures[C06] value1.typ == String && value2.typ != Null && err == nil ==> result.typ == Boolean && fresh(result) && result.value.(bool) == (value1.value.(string) > convVal(value2.typ, value2.value, String).(string))
+//@   ensures[C06] value1.typ == String && value2.typ == String ==> err == nil
+//@   ensures[C06] value1.typ == TimeSpan && value2.typ != Null && err == nil ==> result.typ == Boolean && fresh(result) && result.value.(bool) == (value1.value.(time.Duration) > convVal(value2.typ, value2.value, TimeSpan).(time.Duration))
+//@   ensures[C06] value1.typ == TimeSpan && value2.typ == TimeSpan ==> err == nil
+//@   ensures[C06] value1.typ == DateTime && value2.typ != Null && err == nil ==> result.typ == Boolean && fresh(result) && result.value.(bool) == ext("(time.Time).After", "bool", value1.value.(time.Time), convVal(value2.typ, value2.value, DateTime).(time.Time))
+//@   ensures[C06] value2.typ != Null && value1.typ != Null && value1.typ != Integer && value1.typ != Long && value1.typ != Float && value1.typ != Double && value1.typ != String && value1.typ != TimeSpan && value1.typ != DateTime ==> err != nil
+//
+//@ func (c *AbstractVariantOperations) Less
+//@   requires c != nil && c.Overrides != nil && vinv(value1) && vinv(value2)
+//@   ensures[C06,C03] (result != nil) != (err != nil)
+//@   ensures[C06] err == nil ==> vinv(result)
+//@   assigns nothing
+//@   nopanic
+//@   ensures[C06] value1.typ == Null || value2.typ == Null ==> err == nil && result.typ == Null
+//@   ensures[C06] value1.typ == Integer && value2.typ != Null && err == nil ==> result.typ == Boolean && fresh(result) && result.value.(bool) == (value1.value.(int) < convVal(value2.typ, value2.value, Integer).(int))
+//@   ensures[C06] value1.typ == Integer && value2.typ == Integer ==> err == nil
+//@   ensures[C06] value1.typ == Long && value2.typ != Null && err == nil ==> result.typ == Boolean && fresh(result) && result.value.(bool) == (value1.value.(int64) < convVal(value2.typ, value2.value, Long).(int64))
+//@   ensures[C06] value1.typ == Long && value2.typ == Long ==> err == nil
+//@   ensures[C06] value1.typ == Float && value2.typ != Null && err == nil ==> result.typ == Boolean && fresh(result) && result.value.(bool) == (value1.value.(float32) < convVal(value2.typ, value2.value, Float).(float32))
+//@   ensures[C06] value1.typ == Float && value2.typ == Float ==> err == nil
+//@   ensures[C06] value1.typ == Double && value2.typ != Null && err == nil ==> result.typ == Boolean && fresh(result) && result.value.(bool) == (value1.value.(float64) < convVal(value2.typ, value2.value, Double).(float64))
+//@   ensures[C06] value1.typ == Double && value2.typ == Double ==> err == nil
+//@   ensures[C06] value1.typ == String && value2.typ != Null && err == nil ==> result.typ == Boolean && fresh(result) && result.value.(bool) == (value1.value.(string) < convVal(value2.typ, value2.value, String).(string))
+//@   ensures[C06] value1.typ == String && value2.typ == String ==> err == nil
+//@   ensures[C06] value1.typ == TimeSpan && value2.typ != Null && err == nil ==> result.typ == Boolean && fresh(result) && result.value.(bool) == (value1.value.(time.Duration) < convVal(value2.typ, value2.value, TimeSpan).(time.Duration))
+//@   ensures[C06] value1.typ == TimeSpan && value2.typ == TimeSpan ==> err == nil
+//@   ensures[C06] value1.typ == DateTime && value2.typ != Null && err == nil ==> result.typ == Boolean && fresh(result) && result.value.(bool) == ext("(time.Time).Before", "bool", value1.value.(time.Time), convVal(value2.typ, value2.value, DateTime).(time.Time))
+//@   ensures[C06] value2.typ != Null && value1.typ != Null && value1.typ != Integer && value1.typ != Long && value1.typ != Float && value1.typ != Double && value1.typ != String && value1.typ != TimeSpan && value1.typ != DateTime ==> err != nil
+//
+//@ func (c *AbstractVariantOperations) MoreEqual
+//@   requires c != nil && c.Overrides != nil && vinv(value1) && vinv(value2)
+//@   ensures[C06,C03] (result != nil) != (err != nil)
+//@   ensures[C06] err == nil ==> vinv(result)
+//@   assigns nothing
+//@   nopanic
+//@   ensures[C06] value1.typ == Null || value2.typ == Null ==> err == nil && result.typ == Null
+//@   ensures[C06] value1.typ == Integer && value2.typ != Null && err == nil ==> result.typ == Boolean && fresh(result) && result.value.(bool) == (value1.value.(int) >= convVal(value2.typ, value2.value, Integer).(int))
+//@   ensures[C06] value1.typ == Integer && value2.typ == Integer ==> err == nil
+//@   ensures[C06] value1.typ == Long && value2.typ != Null && err == nil ==> result.typ == Boolean && fresh(result) && result.value.(bool) == (value1.value.(int64) >= convVal(value2.typ, value2.value, Long).(int64))
+//@   ensures[C06] value1.typ == Long && value2.typ == Long ==> err == nil
+//@   ensures[C06] value1.typ == Float && value2.typ != Null && err == nil ==> result.typ == Boolean && fresh(result) && result.value.(bool) == (value1.value.(float32) >= convVal(value2.typ, value2.value, Float).(float32))
+//@   ensures[C06] value1.typ == Float && value2.typ == Float ==> err == nil
+//@   ensures[C06] value1.typ == Double && value2.typ != Null && err == nil ==> result.typ == Boolean && fresh(result) && result.value.(bool) == (value1.value.(float64) >= convVal(value2.typ, value2.value, Double).(float64))
+//@   ensures[C06] value1.typ == Double && value2.typ == Double ==> err == nil
+//@   ensures[C06] value1.typ == String && value2.typ != Null && err == nil ==> result.typ == Boolean && fresh(result) && result.value.(bool) == (value1.value.(string) >= convVal(value2.typ, value2.value, String).(string))
+//@   ensures[C06] value1.typ == String && value2.typ == String ==> err == nil
+//@   ensures[C06] value1.typ == TimeSpan && value2.typ != Null && err == nil ==> result.typ == Boolean && fresh(result) && result.value.(bool) == (value1.value.(time.Duration) >= convVal(value2.typ, value2.value, TimeSpan).(time.Duration))
+//@   ensures[C06] value1.typ == TimeSpan && value2.typ == TimeSpan ==> err == nil
+//@   ensures[C06] value1.typ == DateTime && value2.typ != Null && err == nil ==> result.typ == Boolean && fresh(result) && result.value.(bool) == (ext("(time.Time).After", "bool", value1.value.(time.Time), convVal(value2.typ, value2.value, DateTime).(time.Time)) || ext("(time.Time).Equal", "bool", value1.value.(time.Time), convVal(value2.typ, value2.value, DateTime).(time.Time)))
+//@   ensures[C06] value2.typ != Null && value1.typ != Null && value1.typ != Integer && value1.typ != Long && value1.typ != Float && value1.typ != Double && value1.typ != String && value1.typ != TimeSpan && value1.typ != DateTime ==> err != nil
+//
+//@ func (c *AbstractVariantOperations) LessEqual
+//@   requires c != nil && c.Overrides != nil && vinv(value1) && vinv(value2)
+//@   ensures[C06,C03] (result != nil) != (err != nil)
+//@   ensures[C06] err == nil ==> vinv(result)
+//@   assigns nothing
+//@   nopanic
+//@   ensures[C06] value1.typ == Null || value2.typ == Null ==> err == nil && result.typ == Null
+//@   ensures[C06] value1.typ == Integer && value2.typ != Null && err == nil ==> result.typ == Boolean && fresh(result) && result.value.(bool) == (value1.value.(int) <= convVal(value2.typ, value2.value, Integer).(int))
+//@   ensures[C06] value1.typ == Integer && value2.typ == Integer ==> err == nil
+//@   ensures[C06] value1.typ == Long && value2.typ != Null && err == nil ==> result.typ == Boolean && fresh(result) && result.value.(bool) == (value1.value.(int64) <= convVal(value2.typ, value2.value, Long).(int64))
+//@   ensures[C06] value1.typ == Long && value2.typ == Long ==> err == nil
+//@   ensures[C06] value1.typ == Float && value2.typ != Null && err == nil ==> result.typ == Boolean && fresh(result) && result.value.(bool) == (value1.value.(float32) <= convVal(value2.typ, value2.value, Float).(float32))
+//@   ensures[C06] value1.typ == Float && value2.typ == Float ==> err == nil
+//@   ensures[C06] value1.typ == Double && value2.typ != Null && err == nil ==> result.typ == Boolean && fresh(result) && result.value.(bool) == (value1.value.(float64) <= convVal(value2.typ, value2.value, Double).(float64))
+//@   ensures[C06] value1.typ == Double && value2.typ == Double ==> err == nil
+//@   ensures[C06] value1.typ == String && value2.typ != Null && err == nil ==> result.typ == Boolean && fresh(result) && result.value.(bool) == (value1.value.(string) <= convVal(value2.typ, value2.value, String).(string))
+//@   ensures[C06] value1.typ == String && value2.typ == String ==> err == nil
+//@   ensures[C06] value1.typ == TimeSpan && value2.typ != Null && err == nil ==> result.typ == Boolean && fresh(result) && result.value.(bool) == (value1.value.(time.Duration) <= convVal(value2.typ, value2.value, TimeSpan).(time.Duration))
+//@   ensures[C06] value1.typ == TimeSpan && value2.typ == TimeSpan ==> err == nil
+//@   ensures[C06] value1.typ == DateTime && value2.typ != Null && err == nil ==> result.typ == Boolean && fresh(result) && result.value.(bool) == (ext("(time.Time).Before", "bool", value1.value.(time.Time), convVal(value2.typ, value2.value, DateTime).(time.Time)) || ext("(time.Time).Equal", "bool", value1.value.(time.Time), convVal(value2.typ, value2.value, DateTime).(time.Time)))
+//@   ensures[C06] value2.typ != Null && value1.typ != Null && value1.typ != Integer && value1.typ != Long && value1.typ != Float && value1.typ != Double && value1.typ != String && value1.typ != TimeSpan && value1.typ != DateTime ==> err != nil
+//
+// ==== GENERATED - END ====
+//
+// membership and indexing
+//@ pred elemsOK(v *Variant) = v.typ == Array ==>
+//@     (forall i int :: 0 <= i && i < len(arrOf(v)) ==> arrOf(v)[i] != nil && vinv(arrOf(v)[i]) && arrOf(v)[i].typ != Object)
+//@ func (c *AbstractVariantOperations) In
+//@   requires c != nil && c.Overrides != nil && vinv(value1) && vinv(value2) && elemsOK(value1) && value1.typ != Object && value2.typ != Object
+//@   ensures[C06,C03] (result != nil) != (err != nil)
+//@   ensures[C06] value1.typ == Null || value2.typ == Null ==> err == nil && result.typ == Null
+//@   ensures[C06] err == nil && value1.typ == Array && value2.typ != Null ==> result.typ == Boolean
+//@   ensures[C06] err == nil && value1.typ == Array && value2.typ != Null && len(arrOf(value1)) == 0 ==> result.value.(bool) == false
+//@   assigns nothing
+//@   nopanic
+//@   loop 0
+//@     invariant -1 <= rangeindex && rangeindex < len(array)
+//@     decreases len(array) - rangeindex
+//
+// "indexing follows list semantics, and an index out of range yields an error rather than a crash"
+//@ func (c *AbstractVariantOperations) GetElement
+//@   requires c != nil && c.Overrides != nil && vinv(value1) && vinv(value2) && elemsOK(value1)
+//@   ensures[C06,C03] (result != nil) != (err != nil)
+//@   ensures[C06] value1.typ == Null || value2.typ == Null ==> err == nil && result.typ == Null
+//@   ensures[C06] value1.typ == Array && value2.typ != Null && err == nil ==>
+//@       0 <= convVal(value2.typ, value2.value, Integer).(int) && convVal(value2.typ, value2.value, Integer).(int) < len(arrOf(value1)) &&
+//@       result == arrOf(value1)[convVal(value2.typ, value2.value, Integer).(int)]
+//@   ensures[C06] value1.typ == String && value2.typ != Null && err == nil ==> result.typ == String
+//@   ensures[C06] value1.typ != Null && value2.typ != Null && value1.typ != Array && value1.typ != String ==> err != nil
+//@   assigns nothing
+//@   nopanic
